@@ -325,6 +325,31 @@ impl<'a, 'tcx> FnCx<'a, 'tcx> {
                         parts.push(format!("\"f\":{}", js(&format!("{:?}", f))));
                     }
                 } else if let ty::Ref(_, inner, _) = ty.kind() {
+                    // `&[u8; N]` (byte strings, format templates): dump the bytes
+                    if let ty::Array(elem, _) = inner.kind() {
+                        if *elem == tcx.types.u8 {
+                            if let Ok(ConstValue::Scalar(rustc_middle::mir::interpret::Scalar::Ptr(ptr, _))) =
+                                c.const_.eval(tcx, self.env, c.span)
+                            {
+                                let (prov, offset) = ptr.prov_and_relative_offset();
+                                if let Some(rustc_middle::mir::interpret::GlobalAlloc::Memory(alloc)) =
+                                    tcx.try_get_global_alloc(prov.alloc_id())
+                                {
+                                    let a = alloc.inner();
+                                    let start = offset.bytes_usize();
+                                    let end = a.len();
+                                    if start <= end {
+                                        let bytes = a.inspect_with_uninit_and_ptr_outside_interpreter(start..end);
+                                        let s: String = bytes
+                                            .iter()
+                                            .map(|b| if (0x20..0x7f).contains(b) { *b as char } else { '\u{fffd}' })
+                                            .collect();
+                                        parts.push(format!("\"b\":{}", js(&s)));
+                                    }
+                                }
+                            }
+                        }
+                    }
                     if inner.is_str() {
                         if let Ok(val) = c.const_.eval(tcx, self.env, c.span) {
                             if matches!(val, ConstValue::Slice { .. } | ConstValue::Indirect { .. })
